@@ -360,9 +360,16 @@ func (p *progGen) node(b *strings.Builder, depth int) {
 	case "with":
 		p.use("with")
 		v := p.id("w")
-		if p.g.Draw(3) == 0 {
+		switch p.g.Draw(4) {
+		case 0:
 			fmt.Fprintf(b, "{%% with %s as %s %%}", p.strE(), v)
-		} else {
+		case 1:
+			// two pairs, the second mentions the name the first one binds: pairs are evaluated in
+			// the surrounding scope, where that name means nothing (yet) - whatever order the
+			// engine takes them in
+			v2 := p.id("w")
+			fmt.Fprintf(b, "{%% with %s=%s %s=%s %%}[{{ %s }}]", v, p.strE(), v2, v, v2)
+		default:
 			fmt.Fprintf(b, "{%% with %s=%s %%}", v, p.strE())
 		}
 		p.locals = append(p.locals, v)
